@@ -68,6 +68,16 @@ pub fn universe() -> Vec<UVal> {
         u("'mysterious'", vec![Put(s("mysterious"))]),
         u("'NaN'", vec![Put(s("NaN"))]),
         u("'inf'", vec![Put(s("inf"))]),
+        // number syntax at its edges: letter case of the non-finite spellings, signs, bare points, an exponent out of range,
+        // whole numbers past 2^53 and past 2^64
+        u("'Infinity'", vec![Put(s("Infinity"))]),
+        u("'-INF'", vec![Put(s("-INF"))]),
+        u("'1e400'", vec![Put(s("1e400"))]),
+        u("'+5'", vec![Put(s("+5"))]),
+        u("'.5'", vec![Put(s(".5"))]),
+        u("'5.'", vec![Put(s("5."))]),
+        u("'9007199254740993'", vec![Put(s("9007199254740993"))]),
+        u("'18446744073709551616'", vec![Put(s("18446744073709551616"))]),
         u("'ünï'", vec![Put(s("ünï"))]),
         // a character from U+E000..U+FFFF and one beyond U+FFFF: their order differs between code points and UTF-16 units
         u("'Ａ'", vec![Put(s("Ａ"))]),
